@@ -301,12 +301,28 @@ Definition check (p : stmt) (T : nat) (lbs ubs : list Z) (x0 : st) (o : list ans
                      | (c, j) => (c, length dumps, j) end
       | v => v end end end
   end.
+(* histories of tasks: the observed task starts from the state an earlier task left in the space.  The model of a following task is
+   `run p o (with_loc x lc)`: whatever the earlier task left in the RUN-LOCAL components (trial agent, shadow population, fitness
+   temporary, index registers) must be irrelevant.  [poison] fills them with garbage (wrong shapes, out-of-range registers): a program
+   that read one of them before writing it would get stuck or disagree.  Verdict 15: agreement from the clean state only. *)
+Definition poison (x : st) : st :=
+  let n := length (pop x) in
+  let g := {| apos := [[Some 77%Z; Some 78%Z; Some 79%Z]]; aid := 0; afit := (-5)%Z |} in
+  with_hyp (with_idx (with_tmp (with_sh (with_tr x g) (repeat g (S n))) (-12345)%Z) (repeat (n + 7) 8)) ["leftover"%string].
+Definition check_h (p : stmt) (T : nat) (lbs ubs : list Z) (x0 : st) (o : list answer) (ft : list (contents * Z))
+    (args : list contents) (vals : list Z) (dumps : list snapT) (final : snapT) : nat * nat * nat :=
+  match check p T lbs ubs x0 o ft args vals dumps final with
+  | (0, _, _) => match check p T lbs ubs (poison x0) o ft args vals dumps final with
+                 | (0, _, _) => (0, 0, 0) | (c, i, _) => (15, c, i) end
+  | v => v end.
 '''
 
 REPLAY_WHAT = {1: 'the IR semantics gets stuck', 2: 'oracle answers left over', 3: 'objective argument differs', 4: 'objective value differs',
                5: 'number of records differs', 6: 'position of an agent differs', 7: 'fitness of an agent differs', 8: 'best position differs',
                9: 'best fitness differs', 10: 'local position differs', 11: 'tree value differs', 12: 'best tree value differs',
-               13: 'objective argument differs (before the semantics got stuck)', 14: 'objective value differs (before the semantics got stuck)'}
+               13: 'objective argument differs (before the semantics got stuck)', 14: 'objective value differs (before the semantics got stuck)',
+               15: 'agrees from a clean state but not when trial / shadows / fitness temporary / index registers hold leftovers of an earlier task '
+                   '(the program reads run-local state before writing it)'}
 
 
 def _coq_z(k):
@@ -351,8 +367,8 @@ def _coq_case(c):
         '(%s, %s)' % (_coq_cont(c['x0']['best'][0]), _coq_z(c['x0']['best'][1])), _coq_cont(zero),
         '[' + '; '.join(_coq_cont(t) for t in (c['x0'].get('trees') or [])) + ']', _coq_cont(c['x0'].get('btree') or zero))
     e = c['expected']
-    return ('check prog_%s %d [%s] [%s]\n  %s\n  [%s]\n  [%s]\n  [%s]\n  [%s]\n  [%s]\n  %s' % (
-        c['optimizer'], c['T'], '; '.join(_coq_z(k) for k in c['lbs']), '; '.join(_coq_z(k) for k in c['ubs']), x0,
+    return ('%s prog_%s %d [%s] [%s]\n  %s\n  [%s]\n  [%s]\n  [%s]\n  [%s]\n  [%s]\n  %s' % (
+        'check_h' if c.get('prelude') else 'check', c['optimizer'], c['T'], '; '.join(_coq_z(k) for k in c['lbs']), '; '.join(_coq_z(k) for k in c['ubs']), x0,
         '; '.join(_coq_answer(a) for a in c['oracle']),
         '; '.join('(%s, %s)' % (_coq_cont(a), _coq_z(v)) for a, v in c['ftable']),
         '; '.join(_coq_cont(a) for a in e['args']), '; '.join(_coq_z(v) for v in e['vals']),
@@ -410,6 +426,10 @@ def _describe(c, code, i, j):
     """Human-readable account of a mismatch: which component differs first, in which run."""
     e = c['expected']
     what = REPLAY_WHAT.get(code, 'code %d' % code)
+    if code == 0 and c.get('gaps'):
+        what = 'the replay agrees on this run, but the task starts from state the model does not carry'
+    if c.get('gaps'):
+        what = '[inherited state outside the model: %s] %s' % ('; '.join(c['gaps']), what)
     nd = len(e['dumps'])
     if code == 1:
         k = j
@@ -423,10 +443,66 @@ def _describe(c, code, i, j):
         what += ': call number %d of %d' % (i, len(e['args']))
     elif code == 5:
         what += ': model %d, implementation %d' % (i, j)
+    elif code == 15:
+        what += ': poisoned verdict %s at %d' % (REPLAY_WHAT.get(i, i), j)
     elif code >= 6:
         what += ' (%s%s)' % ('final state' if i >= nd else 'record %d of %d' % (i, nd), ', index %d' % j if code in (6, 7, 10, 11) else '')
-    return '%s N=%d T=%d %s/%s box=%s%s seed=%d: %s' % (c['optimizer'], c['N'], c['T'], c['space'], c['objective'], c['box'],
-                                                     ' hyperparams=%s' % c['hyperparams'] if c.get('hyperparams') else '', c['seed'], what)
+    return '%s%s N=%d T=%d %s/%s box=%s%s seed=%d: %s' % (c['optimizer'], ' after %s' % '+'.join(c['prelude']) if c.get('prelude') else '',
+                                                       c['N'], c['T'], c['space'], c['objective'], c['box'],
+                                                       ' hyperparams=%s' % c['hyperparams'] if c.get('hyperparams') else '', c['seed'], what)
+
+
+def run_local_reads(ir):
+    """Static companion of the poisoned replay: uses of the trial agent, the shadow population, the fitness temporary or an index
+    register on a path on which the program has not written them (loops may run zero times, branches are intersected).  -> list of texts"""
+    bad = []
+
+    def refs(x):
+        out = []
+        if isinstance(x, (tuple, list)):
+            if x and x[0] in ('Tr', 'Sh') and len(x) == 1:
+                out.append(x[0])
+            elif len(x) == 2 and x[0] == 'Slot':
+                out.append('idx%d' % x[1])
+            else:
+                for y in x[1:]:
+                    out.extend(refs(y))
+        return out
+
+    def go(s, d):
+        k = s[0]
+        if k == 'At':
+            return go(s[2], d)
+        if k == 'Seq':
+            return go(s[2], go(s[1], d))
+        if k == 'If':
+            for u in refs(s[1]) + (['tmp'] if 'TmpLt' in repr(s[1]) else []):
+                if u not in d:
+                    bad.append('%s read by a test' % u)
+            return go(s[2], set(d)) & go(s[3], set(d))
+        if k in ('ForSlots', 'RepeatAny', 'Repeat', 'Onlooker'):
+            go(s[1], set(d))
+            return d
+        uses = refs(s)
+        if k == 'NewTrial':
+            uses = refs(s[1:])
+        if k == 'SetFitTmp':
+            uses.append('tmp')
+        for u in uses:
+            if u not in d and not (k == 'NewTrial' and u == 'Tr'):
+                bad.append('%s read by %s' % (u, k))
+        d = set(d)
+        if k == 'NewTrial':
+            d.add('Tr')
+        elif k == 'ShadowAll':
+            d.add('Sh')
+        elif k == 'EvalTmp':
+            d.add('tmp')
+        elif k == 'ChooseIdx':
+            d.add('idx%d' % s[1])
+        return d
+    go(ir, set())
+    return sorted(set(bad))
 
 
 def state_replay(ctx, meta):
@@ -458,16 +534,18 @@ def state_replay(ctx, meta):
             _replay_verdicts_cached(vtext, trip)
         for n, t in enumerate(trip):
             verdict[k + n] = tuple(int(x) for x in t)
-    kinds, per_opt = {}, {}
+    kinds, per_opt, per_hist = {}, {}, {}
     for n, c in enumerate(cases):
         if n not in verdict:
             continue
-        per_opt.setdefault(c['optimizer'], []).append((n, c))
+        (per_hist if c.get('prelude') else per_opt).setdefault(c['optimizer'], []).append((n, c))
         for a in c['oracle']:
             kinds[a[0]] = kinds.get(a[0], 0) + 1
     names = {'C': 'havoc_contents', 'B': 'opaque_tests', 'N': 'indices_and_loop_counts', 'T': 'tree_steps'}
     cov = {'cases': {o: len(l) for o, l in per_opt.items()}, 'skipped_runs': data.get('skipped', {}), 'not_replayed': data.get('not_replayed', {}),
            'oracle_answers': {names[k]: v for k, v in kinds.items()}, 'mismatches': {},
+           'history_cases': {o: len(l) for o, l in per_hist.items()}, 'history_mismatches': {},
+           'history_preludes': {}, 'run_local_reads_before_writes': {o: run_local_reads(meta[o]['ir']) for o in OPTS if o in meta},
            'objective_calls_compared': sum(len(c['expected']['args']) for n, c in enumerate(cases) if n in verdict),
            'records_compared': sum(len(c['expected']['dumps']) + 1 for n, c in enumerate(cases) if n in verdict)}
     ctx.cov['state_replay'] = cov
@@ -486,6 +564,22 @@ def state_replay(ctx, meta):
             # as for a rejected trace: let the run monitor search for a concrete violation of this property on that optimizer; if it
             # finds none the broken obligation stands (no-failing-input-found).  A change outside the optimizers (e.g. in a space's
             # check_limits) makes most programs disagree at once: the focused search is limited to the first four of them.
+            focused += 1
+            monitor_data(ctx, focus=o)
+    for o in OPTS:
+        if o not in per_hist:
+            continue
+        for n, c in per_hist[o]:
+            k = '+'.join(c['prelude'])
+            cov['history_preludes'][k] = cov['history_preludes'].get(k, 0) + 1
+        bad = [(n, c) for n, c in per_hist[o] if verdict[n][0] != 0 or c.get('gaps')]
+        if bad:
+            cov['history_mismatches'][o] = [_describe(c, *verdict[n]) for n, c in bad[:8]]
+        ctx.oblige('T2 state replay (histories of tasks): prog_%s started from the state earlier tasks left in the space (inherited positions, '
+                   'fitnesses, best agent, trees; local arrays re-created; run-local components poisoned) reproduces the implementation on %d '
+                   'second/third tasks' % (o, len(per_hist[o])), not bad,
+                   '%d of %d runs disagree: %s' % (len(bad), len(per_hist[o]), '; '.join(_describe(c, *verdict[n]) for n, c in bad[:4])))
+        if bad and focused < 4:
             focused += 1
             monitor_data(ctx, focus=o)
     ctx.count(evaluations=len(verdict), nontrivial=sum(1 for n in verdict if len(cases[n]['oracle']) > 0))
